@@ -127,6 +127,38 @@ func (c *Ctx) rulePredicates(r1, r2 string) {
 		c.Rep.undecided(r1, R.WaitFn.Short(), "wait predicate", c.P.pos(R.WaitFn.Body), "cannot identify the wait predicate (a boolean function reading the worker status whose result guards Cond.Wait)")
 		return
 	}
+	// The dispatcher raises in-flight before it lowers pending (R06.5); a reader must look in the opposite order
+	// — pending first, in-flight second — or it can see "0 in flight" (before the reservation) and then
+	// "0 pending" (after the dequeue) for a job that has not run.
+	ov := c.vocab([]string{"inflight?", "pending?"}, nil)
+	osr := ov.seq(r1, false)
+	obase := osr.classify
+	osr.classify = func(fr *Frame, call *ast.CallExpr, ce *Callee, args []Value) *callEvent {
+		if ce.Key == kMgrLen {
+			return &callEvent{Name: "pending?", Atomic: true}
+		}
+		return obase(fr, call, ce, args)
+	}
+	for _, sg := range osr.segments(pred) {
+		if sg.has("inflight?") && sg.has("pending?") {
+			c.Rep.check(sg.index("pending?") < sg.index("inflight?"), r1, pred.Short(), "wait predicate reads in-flight before pending", sg.End, "pending read before in-flight",
+				"the wait predicate reads the in-flight counter before the pending count: a job that is reserved and dequeued between the two reads is seen by neither, and the barrier returns before it ran ["+strings.Join(sg.Syms, " ")+"]")
+		}
+	}
+	// the predicate is evaluated under the Cond's own lock (check-then-park must be atomic w.r.t. Broadcast)
+	own := c.condLock(R.FCond)
+	nload := 0
+	for _, o := range c.lockFacts().Ops {
+		if o.Op == "atomic:Load" && o.Fn == pred && strings.HasPrefix(o.Chain, R.WaitFn.Short()) {
+			nload++
+			_, held := o.Locks[own]
+			c.Rep.check(held, r1, pred.Short(), "wait predicate evaluated without the Cond's lock", c.P.posOf(o.Pos), "predicate read under "+shortKey(own),
+				"the wait predicate is evaluated without the Cond's lock held: a Broadcast can fall between the evaluation and Cond.Wait and is lost (locks "+locksString(o.Locks)+")")
+		}
+	}
+	if nload == 0 {
+		c.Rep.undecided(r1, pred.Short(), "no atomic read found in the predicate", c.P.pos(pred.Body), "the lockset walk did not reach the wait predicate")
+	}
 	ref := func(status string, pending, inflight int64) bool {
 		switch status {
 		case "Running":
